@@ -301,7 +301,8 @@ def main():
                ns.average_over_modes, ns.clear_gamma_point)
     Z.reset_log()
     if tier == "quick":
-        shapes = [(2, 6, 2, 1, True), (3, 6, 2, 1, True)]
+        # last shape: arbitrary finite data in the three Gamma acoustic slots (they must be excluded by position, whatever they hold)
+        shapes = [(2, 6, 2, 1, True), (3, 6, 2, 1, True), (2, 3, 2, 1, False)]
     else:
         shapes = [(1, 6, 2, 1, True), (2, 3, 2, 1, True), (2, 6, 2, 1, True), (3, 6, 3, 2, True),
                   (4, 12, 3, 2, True), (2, 6, 2, 1, False), (8, 3, 2, 1, True)]
